@@ -51,7 +51,20 @@
  *     of export/search objects) must be free again: "leak: block allocated in <function> ...";
  *     LeakSanitizer (mc_leak_check) runs as a backstop for blocks libc allocated (strdup ...);
  *   - growth bound: a history is repeated 9 times on one decoder; live heap bytes measured after
- *     repetition 3, 6 and 9 must not grow by the same positive amount twice (linear growth).
+ *     repetition 3, 6 and 9 must not grow by the same positive amount twice (linear growth);
+ *   - what ASan cannot see inside one heap block or on the stack:
+ *       audit(): every write index the decoder keeps between calls is inside its array (X/26 triplet
+ *         count, caption cursor/window/line pointer, XDS sub-packet counts and current pointer, ITV fill,
+ *         vt.current, have_top, magazine character sets and MOT look-up tables);
+ *       a fetched vbi_page is pre-filled: text[1025..1055] must stay untouched, and the palette of a 25 row
+ *         fetch must equal the palette of the header-only fetch (color_map[] is the member behind text[]);
+ *       strings handed to the application (events, vbi_link) must be terminated inside their arrays;
+ *       the stack below every fetch is painted with '7' so that uninitialised automatic buffers of the
+ *         library behave deterministically (a digit run, no terminator);
+ *   - a vbi_page the application still holds (no vbi_unref_page() yet) must stay usable after any later
+ *     input: before it is rendered ASan is asked whether pg->drcs[] / pg->drcs_clut address freed memory
+ *     ("held page: vbi_page.<pointer> points into freed memory after <what freed it>"), phases
+ *     held-page-draw / held-page-export and the "hold" / "held page" letters of the read layers.
  *
  * Deviations from DESIGN.md, forced by the code / budget:
  *   - forward vbi_search_next() from a start page above all cached pages never returns (defect
@@ -127,8 +140,12 @@ static char cur_op[48] = "startup";
 static char cur_ctx[700] = "";
 static int  ub_printed;              /* a UBSan report was written to stderr since the last op() */
 
-static void op(const char *api)
+static const char *op_prefix = "";    /* e.g. "held page after later input: " */
+
+static void op(const char *api_)
 {
+        char api[96];
+        snprintf(api, sizeof api, "%s%s", op_prefix, api_);
         if (ub_printed && !mc_replaying) {
                 /* the engine classifies a dead worker by the first sanitizer line in its stderr file:
                  * drop the (already recorded) recoverable UBSan text so that it cannot mislabel a
@@ -208,10 +225,16 @@ static int acct_del(void *p)
 struct bigpool { size_t size; void *owned[NPOOL]; int nowned; void *idle[NPOOL]; int nidle; };
 static struct bigpool pools[2] = { { sizeof(struct vbi_decoder) }, { sizeof(cache_network) } };
 
+/* The decoder block is reused at once (one decoder per execution, nothing can point to the old one).
+ * A cache_network is replaced at every channel switch while pages, vbi_page structures ... may still point
+ * into the old one: an idle network block is reused only when two younger ones are idle as well (FIFO), so a
+ * stale pointer still hits poisoned memory. */
 static void *pool_take(struct bigpool *b, int zero)
 {
-        if (b->nidle) {
-                void *p = b->idle[--b->nidle];
+        int need = (b == &pools[1]) ? 3 : 1;
+        if (b->nidle >= need || (b->nidle && b->nowned >= NPOOL)) {
+                void *p = b->idle[0];
+                memmove(&b->idle[0], &b->idle[1], (--b->nidle) * sizeof b->idle[0]);
                 UNPOISON(p, b->size);
                 if (zero) memset(p, 0, b->size);
                 else memset(p, 0xBE, b->size);      /* what a fresh ASan block contains */
@@ -272,9 +295,11 @@ static void acct_begin(void)
 }
 /* A defect that is reached by thousands of executions would flood the engine with identical
  * records: every distinct key is reported at most 3 times per worker process, the rest is counted. */
+static int viol_muted;               /* warm up in the parent: nothing is a verdict there */
 static void viol(const char *key, const char *fmt, ...)
 {
         static struct { uint64_t h; int n; } seen[64]; static int nseen;
+        if (viol_muted) return;
         uint64_t h = mc_hash64(key, strlen(key)); int i;
         for (i = 0; i < nseen; i++) if (seen[i].h == h) break;
         if (i == nseen) { if (nseen < 64) { seen[nseen].h = h; seen[nseen].n = 0; nseen++; } else i = 63; }
@@ -293,6 +318,9 @@ static const char *pc_function(void *pc, char *buf, size_t len)
         if (ncache < 32) { cache[ncache].pc = pc; snprintf(cache[ncache].fn, sizeof cache[ncache].fn, "%s", buf); ncache++; }
         return buf;
 }
+/* optional: the harness may append what the leaked block is (defined after the library headers are known) */
+static void (*leak_describe)(const void *p, size_t n, const char *fn, char *out, size_t len);
+
 /* is block x referenced from inside another leaked block? (LeakSanitizer's "indirect leak") */
 NOASAN static int leaked_indirectly(const struct ablk *x)
 {
@@ -319,6 +347,7 @@ static int acct_end(const char *when)
                         char fn[128], key[200];
                         pc_function(atab[i].pc, fn, sizeof fn);
                         snprintf(key, sizeof key, "leak: block allocated in %s still allocated after %s", fn, when);
+                        if (leak_describe) leak_describe(atab[i].p, atab[i].n, fn, key + strlen(key), sizeof key - strlen(key));
                         viol(key, "%zu bytes (+ %d block(s) reachable only from leaked blocks) | %s", atab[i].n, acct_nlive - ndirect, cur_ctx);
                         leaks++;
                 }
